@@ -22,6 +22,7 @@ type retSite struct {
 	vals  []*val
 	h     heap
 	ac    string
+	blk   *ssa.BasicBlock // block of the return instruction (resolution of locals in postconditions)
 }
 
 type localBind struct {
